@@ -146,10 +146,32 @@ def c07(tier, hook=None):
             else:
                 events.append({"ev": j["act"], "d": j["d"], "s": j["s"], "log": j["log"], "post": j["post"]})
             meta.append({"guise": (tuple(sh), "history"), "script": script})
+    # field TYPES of other syntactic forms (tuples, arrays, Option, Vec, Box of the recording type): one call of the field type's own
+    # clone / clone_from per field, in order - judged against the same calls made directly
+    if not hook:
+        fmods, fmeta = [], []
+        for kind in ("struct", "enum"):
+            for forms in ([0], [1], [2], [3], [4], [5], [0, 6], [6, 1, 2], [3, 0], [5, 4, 6]):
+                for entry in ("attr", "derive"):
+                    fmods.append((len(fmods), rf.clone_fieldwise_module(len(fmods), kind, forms, entry)))
+                    fmeta.append((kind, forms, entry))
+        fres, ffailed = run_modules(fmods, "c07f")
+        for i, fm in enumerate(fmeta):
+            if i in fres:
+                e = dict(fres[i][0])
+                e.pop("id", None)
+                events.append(e)
+            else:
+                events.append({"ev": "rustc_failed"})
+            meta.append({"guise": (tuple(fm[1]), "field_forms:%s" % fm[0]), "diags": ffailed.get(i), "source": fmods[i][1]})
     n, bad, jst = dx.tlc_judge("Trace_Run", "Trace_Run.cfg", events, "c07")
     ck.add_judge(n, jst)
     for i in bad:
         e, m = events[i], meta[i]
+        if e["ev"] == "clone_fieldwise":
+            ck.violation({"kind": "clone_fieldwise", "guise": str(m["guise"]), "obs": {k: v for k, v in e.items() if k != "ev"}},
+                         {"what": "derived clone / clone_from is not one call of the field type's own clone / clone_from per field", "event": e, "source": m.get("source")})
+            continue
         if e["ev"] == "rustc_failed":
             sig = {"kind": "rustc_failed", "shape": str(m["guise"][0])}
         else:
